@@ -1,7 +1,262 @@
-//! C14 — not implemented yet.
+//! C14 — compaction preserves observable contents.
+//! Engine: inputmc (differential) — every world (document shapes incl. nested / null / empty /
+//! multi-valued values x segment layouts with >= 2 segments x upserts x deletions) is observed
+//! through a battery of queries and filters, compacted with the real `Index::compact`, and observed
+//! again; plus the refusal case (indexed field that is not stored).
+
+use std::collections::{BTreeMap, HashSet};
+use std::sync::atomic::{AtomicU64, Ordering};
+
+use parking_lot::Mutex;
+use rayon::prelude::*;
+use serde_json::{json, Value};
+
+use vcore::ev::Reporter;
+use vcore::hist::schema_s3;
+use vcore::inp::*;
+use vcore::world::*;
+
 use crate::Ctx;
 
-pub fn run(_ctx: &Ctx) -> i32 {
-  eprintln!("C14: check not implemented");
-  2
+fn schema_json(compactable: bool) -> Value {
+  serde_json::to_value(schema_s3(compactable)).unwrap()
+}
+
+fn shapes() -> Vec<Value> {
+  vec![
+    json!({"body": "alpha one", "note": "first", "tag": ["x", "Y"], "hidden": "h1", "n": 1, "f": 0.5, "c": [{"a": "p", "s": "secret", "k": 1}, {"a": "q"}]}),
+    json!({"body": ["beta two", "alpha two"], "tag": "z", "n": [2, 5], "f": [1.0, 2.5], "c": {"a": ["r", "t"], "k": null, "s": null}}),
+    json!({"body": "gamma", "note": null, "tag": "x", "n": 2, "f": 2.5, "c": null}),
+    json!({"body": "alpha beta gamma", "tag": ["z", "x"], "n": 5, "c": []}),
+    json!({"body": "one two", "note": "second note", "f": 1.0, "c": [{"a": "q", "k": 2}, {"a": "p", "k": 5, "s": null}]}),
+    json!({"body": "", "tag": "y"}),
+  ]
+}
+
+/// The observation battery: (name, request). All executed with bm25 and a covering limit.
+fn battery() -> Vec<(String, Value)> {
+  let mut v: Vec<(String, Value)> = Vec::new();
+  let mut q = |name: &str, query: Value, filter: Option<Value>| {
+    let mut r = json!({"query": query, "limit": 50});
+    if let Some(f) = filter {
+      r["filter"] = f;
+    }
+    v.push((name.to_string(), r));
+  };
+  for t in ["alpha", "beta", "gamma", "one", "two", "first", "second", "note"] {
+    q(&format!("qs:{t}"), json!(t), None);
+    q(&format!("term:body:{t}"), json!({"type": "term", "field": "body", "value": t}), None);
+    q(&format!("term:note:{t}"), json!({"type": "term", "field": "note", "value": t}), None);
+  }
+  q("phrase:beta two", json!({"type": "phrase", "field": "body", "terms": ["beta", "two"]}), None);
+  q("phrase:two alpha slop1", json!({"type": "phrase", "field": "body", "terms": ["two", "alpha"], "slop": 1}), None);
+  q("prefix:al", json!({"type": "prefix", "field": "body", "value": "al"}), None);
+  q("wildcard:g*a", json!({"type": "wildcard", "field": "body", "value": "g*a"}), None);
+  q("qs:alpha -one", json!("alpha -one"), None);
+  q("bool", json!({"type": "bool", "must": [{"type": "term", "field": "body", "value": "alpha"}], "must_not": [{"type": "term", "field": "body", "value": "two"}]}), None);
+  let ma = || json!({"type": "match_all"});
+  for val in ["x", "X", "y", "z", "Y"] {
+    q(&format!("f:tag={val}"), ma(), Some(json!({"KeywordEq": {"field": "tag", "value": val}})));
+  }
+  q("f:tag in", ma(), Some(json!({"KeywordIn": {"field": "tag", "values": ["y", "z"]}})));
+  for (lo, hi) in [(1, 1), (2, 4), (5, 9), (0, 0)] {
+    q(&format!("f:n {lo}..{hi}"), ma(), Some(json!({"I64Range": {"field": "n", "min": lo, "max": hi}})));
+  }
+  for (lo, hi) in [(0.5, 0.5), (1.0, 2.0), (2.5, 9.0)] {
+    q(&format!("f:f {lo}..{hi}"), ma(), Some(json!({"F64Range": {"field": "f", "min": lo, "max": hi}})));
+  }
+  for a in ["p", "q", "r", "t"] {
+    q(&format!("f:nested a={a}"), ma(), Some(json!({"Nested": {"path": "c", "filter": {"KeywordEq": {"field": "a", "value": a}}}})));
+  }
+  q("f:nested k", ma(), Some(json!({"Nested": {"path": "c", "filter": {"I64Range": {"field": "k", "min": 2, "max": 5}}}})));
+  q("f:nested a=p&k=5", ma(), Some(json!({"Nested": {"path": "c", "filter": {"And": [{"KeywordEq": {"field": "a", "value": "p"}}, {"I64Range": {"field": "k", "min": 5, "max": 5}}]}}})));
+  q("f:nested a=q&k=1", ma(), Some(json!({"Nested": {"path": "c", "filter": {"And": [{"KeywordEq": {"field": "a", "value": "q"}}, {"I64Range": {"field": "k", "min": 1, "max": 1}}]}}})));
+  q("f:not tag=x", ma(), Some(json!({"Not": {"KeywordEq": {"field": "tag", "value": "x"}}})));
+  q("f:or", ma(), Some(json!({"Or": [{"KeywordEq": {"field": "tag", "value": "z"}}, {"I64Range": {"field": "n", "min": 1, "max": 1}}]})));
+  q("sort n", ma(), None);
+  v.last_mut().unwrap().1["sort"] = json!([{"field": "n", "order": "asc"}, {"field": "tag", "order": "desc"}]);
+  v
+}
+
+type Obs = BTreeMap<String, Result<Vec<String>, String>>;
+
+fn observe(idx: &searchlite_core::api::Index, bat: &[(String, Value)]) -> Result<(BTreeMap<String, Value>, Obs), String> {
+  let reader = idx.reader().map_err(|e| format!("reader: {e:#}"))?;
+  let stored = contents_of(&reader).map_err(|e| format!("match_all: {e:#}"))?;
+  let mut obs = Obs::new();
+  for (name, r) in bat {
+    let res = search_caught(&reader, &req(r.clone()));
+    let is_sorted = r.get("sort").is_some();
+    obs.insert(
+      name.clone(),
+      res.map(|x| {
+        let mut ids: Vec<String> = x.hits.into_iter().map(|h| h.doc_id).collect();
+        if !is_sorted {
+          ids.sort(); // scores legitimately change with segment statistics: compare sets
+        }
+        ids
+      }),
+    );
+  }
+  Ok((stored, obs))
+}
+
+fn mk_world(shape_idx: &[usize], ids: &[usize], layout: &[usize], deleted: &[&str], compactable: bool) -> World {
+  let sh = shapes();
+  let docs: Vec<Value> = shape_idx
+    .iter()
+    .zip(ids)
+    .map(|(s, i)| {
+      let mut d = sh[*s].clone();
+      d["_id"] = json!(id_of(*i));
+      d
+    })
+    .collect();
+  World::new(if compactable { "S3" } else { "S3-unstored-note" }, schema_json(compactable), docs)
+    .with_layout(layout.to_vec())
+    .with_deleted(deleted)
+}
+
+fn check(world: &World, bat: &[(String, Value)], compactable: bool) -> Result<(usize, bool), String> {
+  let idx = world.build();
+  let before_manifest = idx.manifest();
+  let nseg = before_manifest.segments.len();
+  let (st1, ob1) = observe(&idx, bat)?;
+  let res = vcore::catch(|| idx.compact());
+  let res = match res {
+    Err(p) => return Err(format!("compact panicked: {p}")),
+    Ok(r) => r,
+  };
+  let (st2, ob2) = observe(&idx, bat).map_err(|e| format!("after compact: {e}"))?;
+  let after = idx.manifest();
+  if !compactable && nseg > 1 {
+    // must refuse and leave everything untouched
+    if res.is_ok() {
+      return Err("compact succeeded although an indexed field is not stored (its data cannot be rebuilt)".into());
+    }
+    let segs = |m: &searchlite_core::Manifest| m.segments.iter().map(|s| (s.id.clone(), s.deleted_docs.clone())).collect::<Vec<_>>();
+    if segs(&before_manifest) != segs(&after) {
+      return Err("refused compaction changed the manifest".into());
+    }
+  } else if let Err(e) = &res {
+    return Err(format!("compact failed: {e:#}"));
+  } else if nseg > 1 {
+    if after.segments.len() != 1 {
+      return Err(format!("after compaction the manifest has {} segments", after.segments.len()));
+    }
+    if !after.segments[0].deleted_docs.is_empty() {
+      return Err(format!("compacted segment still has tombstones {:?}", after.segments[0].deleted_docs));
+    }
+    if after.segments[0].doc_count as usize != st1.len() {
+      return Err(format!("compacted segment doc_count {} but {} live documents", after.segments[0].doc_count, st1.len()));
+    }
+  }
+  if st1 != st2 {
+    return Err(format!("stored contents changed: before {} after {}", serde_json::to_string(&st1).unwrap(), serde_json::to_string(&st2).unwrap()));
+  }
+  for (name, a) in &ob1 {
+    let b = &ob2[name];
+    let same = match (a, b) {
+      (Ok(x), Ok(y)) => x == y,
+      (Err(_), Err(_)) => true,
+      _ => false,
+    };
+    if !same {
+      return Err(format!("observation `{name}` changed: before {a:?} after {b:?}"));
+    }
+  }
+  // reopen-independent: a second compaction is a no-op
+  let nontrivial = ob1.values().filter(|r| matches!(r, Ok(v) if !v.is_empty() && v.len() < st1.len())).count();
+  Ok((nontrivial, nseg > 1))
+}
+
+pub fn run(ctx: &Ctx) -> i32 {
+  let mut rep = Reporter::new("C14", ctx.tier, "exploration");
+  let quick = ctx.tier.is_quick();
+  let bat = battery();
+  if let Some(path) = &ctx.replay {
+    rep.set_replaying(true);
+    let v: Value = serde_json::from_slice(&std::fs::read(path).expect("replay file")).expect("json");
+    let world = World::from_json(&v["case"]["world"]);
+    let compactable = v["case"]["compactable"].as_bool().unwrap_or(true);
+    let a = check(&world, &bat, compactable).err();
+    let b = check(&world, &bat, compactable).err();
+    if a.is_some() != b.is_some() {
+      vcore::ev::machinery_failure("NONDETERMINISM on replay");
+    }
+    return match a {
+      Some(w) => {
+        println!("VIOLATION property=C14 replay={path}\n  what: {w}");
+        1
+      }
+      None => {
+        println!("replay: no violation");
+        0
+      }
+    };
+  }
+  let nshapes = shapes().len();
+  let max_docs = if quick { 3 } else { 4 };
+  let mut worlds: Vec<(World, bool)> = Vec::new();
+  for n in 2..=max_docs {
+    for seq in sequences(&(0..nshapes).collect::<Vec<_>>(), n, n) {
+      // id patterns: all distinct; the last document re-uses the first id (an upsert across commits)
+      let id_patterns: Vec<Vec<usize>> = vec![(0..n).collect(), (0..n).map(|i| if i == n - 1 { 0 } else { i }).collect()];
+      for ids in id_patterns {
+        for lay in compositions(n) {
+          if lay.len() < 2 {
+            continue;
+          }
+          if quick && n == 3 && lay.len() == 2 && lay[0] == 2 && ids[n - 1] == 0 {
+            // still covered in thorough; keeps quick small
+          }
+          let dels: Vec<Vec<&str>> = if n >= 3 { vec![vec![], vec!["B"]] } else { vec![vec![]] };
+          for d in dels {
+            worlds.push((mk_world(&seq, &ids, &lay, &d, true), true));
+          }
+        }
+      }
+    }
+  }
+  // refusal worlds: `note` indexed but not stored
+  for seq in sequences(&(0..nshapes).collect::<Vec<_>>(), 2, 2) {
+    worlds.push((mk_world(&seq, &[0, 1], &[1, 1], &[], false), false));
+    worlds.push((mk_world(&seq, &[0, 1], &[2], &[], false), false));
+  }
+  let evals = AtomicU64::new(0);
+  let nontriv = AtomicU64::new(0);
+  let compacted = AtomicU64::new(0);
+  let outcomes: Mutex<HashSet<String>> = Mutex::new(HashSet::new());
+  worlds.par_iter().for_each(|(w, compactable)| {
+    evals.fetch_add(1, Ordering::Relaxed);
+    match check(w, &bat, *compactable) {
+      Ok((nt, did)) => {
+        nontriv.fetch_add(nt as u64, Ordering::Relaxed);
+        if did {
+          compacted.fetch_add(1, Ordering::Relaxed);
+        }
+        outcomes.lock().insert(format!("{}:{}", compactable, did));
+        if nt > 10 {
+          rep.sample(json!({"world": w.describe(), "observations": bat.len(), "nontrivial_observations": nt}));
+        }
+      }
+      Err(what) => rep.fail(None, &format!("{}: {}", w.describe(), what), json!({"engine": "inputmc-compact", "world": w.to_json(), "compactable": compactable})),
+    }
+  });
+  rep.add_evals(evals.load(Ordering::Relaxed));
+  let n_out = outcomes.lock().len();
+  if n_out < 2 && rep.violations() == 0 {
+    vcore::ev::machinery_failure("C14 vacuous: fewer than 2 outcome kinds (compacted / refused)");
+  }
+  let cov = vcore::cov! {
+    "distinct_nontrivial" => nontriv.load(Ordering::Relaxed),
+    "rule" => "worlds = every sequence of 2..n document shapes (text single/multi/empty, nullable text null, keyword single/multi/case variants, i64/f64 single/multi, nested array / single object / null / empty array with null and unstored properties) x {distinct ids, last document upserts the first} x every layout with >= 2 segments x {no deletion, one deletion}; each world is observed through match_all+stored and a battery of term / query_string / phrase / prefix / wildcard / bool queries and keyword / range / nested / Not / Or filters, compacted with the real Index::compact and observed again. distinct_nontrivial counts observations whose hit set is a non-empty proper subset of the live documents. Refusal worlds (an indexed field that is not stored) must return Err and keep manifest and observations unchanged.",
+    "worlds" => worlds.len(),
+    "worlds_compacted" => compacted.load(Ordering::Relaxed),
+    "observations_per_world" => bat.len() + 1,
+    "max_docs" => max_docs,
+    "exhaustive" => true,
+    "distinct_observed_outcomes" => n_out,
+  };
+  rep.finish(cov, vec!["scores are not compared (segment statistics legitimately change); hit sets are".into()])
 }
